@@ -98,6 +98,7 @@ FCRefines == [][FC!Next \/ UNCHANGED <<FCrt, FCfam, FCat, FCkilled>>]_vars
 OpsC01 ==   \* code single use; replay after refreshes; hybrid codes; other grants interleaved
   (IF CanAuthz THEN {Authz(c, rt, Full, Full, <<>>, "sent", "none") : c \in {"A", "B"}, rt \in {"code", "code_token", "code_idt_token"}}
                     \cup {Authz("A", "code", <<"a">>, <<"a">>, <<>>, "sent", "none")}     \* no offline scope: a refresh token all the same when none is required
+                    \cup {Authz("A", "code", <<"a">>, <<>>, <<>>, "sent", "none")}        \* nothing granted at all: still a grant, with a family of its own
    ELSE {})
   \cup (IF CanMint THEN {Redeem(Owner(k), "ok", k, "same", "none", <<>>, <<>>) : k \in Codes} ELSE {})
   \cup UNION {{Redeem(c, a, k, rd, "none", <<>>, <<>>) : c \in {Owner(k), Other(Owner(k))}, a \in {"ok", "bad"}, rd \in {"same", "absent"}} :
@@ -236,6 +237,7 @@ OpsC09 ==   \* introspection endpoint: callers, hints, required scopes, over sta
           kind \in {"at"}, t \in ATs, h \in {"at", "rt", "none"}, need \in {<<>>, <<"a">>, <<"b">>, <<"a", "b">>, <<"b", "a">>}}
   \cup {Introspect("A", "basic", 0, "rt", t, h, need) : t \in RTs, h \in {"at", "rt", "bad"}, need \in {<<>>, <<"offline">>, <<"b">>, <<"offline", "b">>}}
   \cup {Introspect("A", caller, n, "at", t, "none", <<>>) : caller \in {"bearer", "self"}, n \in ATs, t \in ATs}
+  \cup {Introspect("A", "bearer", t, "at", t, h, <<>>) : t \in ATs, h \in {"at", "rt", "bad"}}     \* a token vouching for itself, under every hint
   \cup {Introspect("A", "bearer_rt", n, "at", t, "none", <<>>) : n \in RTs, t \in ATs}
   \cup {Introspect("A", "basic", 0, "unk", 0, "none", <<>>)}
   \cup TickOps
